@@ -634,6 +634,183 @@ func init() {
 			// Heap.Fix: down, and up only if it did not move down; -1 ignored
 		}})
 
+	register(&Obligation{ID: "C10.i", Props: []string{"C10", "C06"}, Template: "index-alignment",
+		Desc: "NewTimerStore: partition i of the timer queue is the DKV-backed queue of key group keyGroupRange.Start+i (the i-th element of KeyGroups()), and getPartitionIndex maps a timer key's group back with IndexOf = kg - Start; KeyGroups / IndexOf / Size are the matching linear forms",
+		Run: func(r *Run) {
+			f := r.P.Func("workers/operator", "NewTimerStore")
+			info := f.Pkg.TypesInfo
+			sig := f.Obj.Type().(*types.Signature)
+			dbP, rangeP := sig.Params().At(0), sig.Params().At(2)
+			nq := r.P.FuncObj("workers/operator", "NewKeyGroupPriorityQueue")
+			kgs := r.P.FuncObj("partitioning", "KeyGroupRange.KeyGroups")
+			sizeF := r.P.FuncObj("partitioning", "KeyGroupRange.Size")
+			indexOf := r.P.FuncObj("partitioning", "KeyGroupRange.IndexOf")
+			fromBytes := r.P.FuncObj("partitioning", "KeyGroupFromBytes")
+			onRange := func(call *ast.CallExpr, fn *types.Func) bool {
+				if r.P.CalleeFunc(info, call) != fn {
+					return false
+				}
+				sel, ok := ast.Unparen(call.Fun).(*ast.SelectorExpr)
+				return ok && prog.IdentObj(info, sel.X) == types.Object(rangeP)
+			}
+			filled := false
+			ast.Inspect(f.Decl.Body, func(nd ast.Node) bool {
+				rs, ok := nd.(*ast.RangeStmt)
+				if !ok {
+					return true
+				}
+				src, ok := ast.Unparen(rs.X).(*ast.CallExpr)
+				if !ok {
+					return true
+				}
+				overGroups, overSize := onRange(src, kgs), onRange(src, sizeF)
+				if !overGroups && !overSize {
+					return true
+				}
+				i := prog.IdentObj(info, rs.Key)
+				var kg types.Object
+				if rs.Value != nil {
+					kg = prog.IdentObj(info, rs.Value)
+				}
+				for _, st := range rs.Body.List {
+					as, ok := st.(*ast.AssignStmt)
+					if !ok || len(as.Lhs) != 1 || len(as.Rhs) != 1 {
+						continue
+					}
+					ix, ok := ast.Unparen(as.Lhs[0]).(*ast.IndexExpr)
+					call, ok2 := ast.Unparen(as.Rhs[0]).(*ast.CallExpr)
+					if !ok || !ok2 || r.P.CalleeFunc(info, call) != nq || len(call.Args) < 2 {
+						continue
+					}
+					r.Site(as.Pos(), "partitions[i] = NewKeyGroupPriorityQueue(db, key group of slot i, ...)")
+					okIdx := i != nil && prog.IdentObj(info, ix.Index) == i
+					okDB := prog.IdentObj(info, call.Args[0]) == types.Object(dbP)
+					arg := stripConv(info, call.Args[1])
+					okKG := false
+					if overGroups && kg != nil && prog.IdentObj(info, arg) == kg {
+						okKG = true
+					}
+					if overSize && i != nil {
+						if l, ok := linearOf(info, nil, arg); ok && sameLinear(l, map[string]int{rangeP.Name() + ".Start": 1, i.Name(): 1}) {
+							okKG = true
+						}
+					}
+					if okIdx && okDB && okKG {
+						filled = true
+					} else {
+						r.Fail(f.Name()+":slot-group", as.Pos(), nil, "slot i of the timer queue's partitions is not the queue of the range's i-th key group (index by the loop index: %v, same db: %v, key group Start+i: %v): an operator whose range does not start at 0 would persist timers under one key group and reload them from another, so timers are lost on restore or cache overflow", okIdx, okDB, okKG)
+					}
+				}
+				return true
+			})
+			if !filled {
+				r.Fail(f.Name()+":slots", f.Decl.Pos(), nil, "NewTimerStore does not fill partitions[i] with the queue of the range's i-th key group")
+			}
+			// getPartitionIndex
+			okIndex := false
+			ast.Inspect(f.Decl.Body, func(nd ast.Node) bool {
+				lit, ok := nd.(*ast.FuncLit)
+				if !ok || lit.Type.Results == nil || len(lit.Type.Params.List) != 1 {
+					return true
+				}
+				ast.Inspect(lit.Body, func(m ast.Node) bool {
+					ret, ok := m.(*ast.ReturnStmt)
+					if !ok || len(ret.Results) != 1 {
+						return true
+					}
+					var kgArg ast.Expr
+					if call, ok := ast.Unparen(ret.Results[0]).(*ast.CallExpr); ok && onRange(call, indexOf) && len(call.Args) == 1 {
+						kgArg = call.Args[0]
+					} else if l, ok := linearOf(info, nil, ret.Results[0]); ok && len(l) == 2 && l[rangeP.Name()+".Start"] == -1 {
+						for k, v := range l {
+							if v == 1 {
+								ast.Inspect(ret.Results[0], func(q ast.Node) bool {
+									if id, ok := q.(*ast.Ident); ok && id.Name == k {
+										kgArg = id
+									}
+									return true
+								})
+							}
+						}
+					}
+					if kgArg == nil {
+						return true
+					}
+					r.Site(ret.Pos(), "getPartitionIndex = IndexOf(key group of the timer key)")
+					def := resolveLocal(info, lit.Body, kgArg)
+					if c2, ok := ast.Unparen(def).(*ast.CallExpr); ok && r.P.CalleeFunc(info, c2) == fromBytes && len(c2.Args) == 1 {
+						if sl, ok := ast.Unparen(c2.Args[0]).(*ast.SliceExpr); ok && sl.High != nil {
+							lo, hi := 0, -1
+							if sl.Low != nil {
+								if tv, ok := info.Types[sl.Low]; ok && tv.Value != nil {
+									sscanInt(tv.Value.String(), &lo)
+								}
+							}
+							if tv, ok := info.Types[sl.High]; ok && tv.Value != nil {
+								sscanInt(tv.Value.String(), &hi)
+							}
+							if lo == 0 && hi == 2 && prog.IdentObj(info, sl.X) == info.Defs[lit.Type.Params.List[0].Names[0]] {
+								okIndex = true
+							}
+						}
+					}
+					return true
+				})
+				return true
+			})
+			if !okIndex {
+				r.Fail(f.Name()+":partition-index", f.Decl.Pos(), nil, "getPartitionIndex is not keyGroupRange.IndexOf(KeyGroupFromBytes(key[0:2])): a timer would be queued in a partition other than its key group's")
+			}
+			// the partitioning helpers agree: KeyGroups()[i] = Start+i, IndexOf(kg) = kg-Start, Size = End-Start
+			for _, h := range []struct {
+				name string
+				want map[string]int
+			}{{"KeyGroupRange.IndexOf", map[string]int{"kg": 1, "r.Start": -1}}, {"KeyGroupRange.Size", map[string]int{"r.End": 1, "r.Start": -1}}} {
+				hf := r.P.Func("partitioning", h.name)
+				ok := false
+				ast.Inspect(hf.Decl.Body, func(nd ast.Node) bool {
+					if ret, isR := nd.(*ast.ReturnStmt); isR && len(ret.Results) == 1 {
+						if l, okL := linearOf(hf.Pkg.TypesInfo, hf.Decl.Body, ret.Results[0]); okL && sameLinear(l, h.want) {
+							ok = true
+						}
+					}
+					return true
+				})
+				r.Site(hf.Decl.Pos(), hf.Name()+" linear form")
+				if !ok {
+					r.Fail(hf.Name()+":linear", hf.Decl.Pos(), nil, "%s is not the linear form %v", hf.Name(), h.want)
+				}
+			}
+			kf := r.P.Func("partitioning", "KeyGroupRange.KeyGroups")
+			ki := kf.Pkg.TypesInfo
+			okK := false
+			ast.Inspect(kf.Decl.Body, func(nd ast.Node) bool {
+				rs, ok := nd.(*ast.RangeStmt)
+				if !ok {
+					return true
+				}
+				src, ok := ast.Unparen(rs.X).(*ast.CallExpr)
+				if !ok || r.P.CalleeFunc(ki, src) != sizeF {
+					return true
+				}
+				i := prog.IdentObj(ki, rs.Key)
+				for _, st := range rs.Body.List {
+					if as, ok := st.(*ast.AssignStmt); ok && len(as.Lhs) == 1 && len(as.Rhs) == 1 {
+						if ix, ok := ast.Unparen(as.Lhs[0]).(*ast.IndexExpr); ok && i != nil && prog.IdentObj(ki, ix.Index) == i {
+							if l, ok := linearOf(ki, nil, as.Rhs[0]); ok && sameLinear(l, map[string]int{"r.Start": 1, i.Name(): 1}) {
+								okK = true
+							}
+						}
+					}
+				}
+				return true
+			})
+			r.Site(kf.Decl.Pos(), "KeyGroups()[i] = Start + i")
+			if !okK {
+				r.Fail(kf.Name()+":linear", kf.Decl.Pos(), nil, "KeyGroups() must list Start+i at index i for i < Size()")
+			}
+		}})
+
 	register(&Obligation{ID: "C10.h", Props: []string{"C10", "C15", "C06"}, Template: "value-identity",
 		Desc: "Operator.HandleDeploy builds a new TimerStore / TimerRegistry on the database it has just opened, with the operator's own key-group range and the deployed source-runner ids; new key-group queues start with an empty, not-known-complete cache",
 		Run: func(r *Run) {
